@@ -13,6 +13,7 @@ import (
 	"git.sr.ht/~rockorager/vaxis"
 	"git.sr.ht/~rockorager/vaxis/ansi"
 	"git.sr.ht/~rockorager/vaxis/widgets/term"
+	"verifharness/cmd/C05/emuh"
 	"verifharness/fakeconsole"
 	"verifharness/gen"
 	"verifharness/hx"
@@ -116,6 +117,8 @@ func newSession(r *hx.Run, rng *gen.Rng, id string, w, h int, rgb, su, ew, sync,
 		d = append(d, fmt.Sprintf("%s:%d", hx.Hex(g), vx.RenderedWidth(g)))
 	}
 	r.Emit("dict "+strings.Join(d, " "), "-")
+	// the emulator MODEL (composition stream) continues from the real emulator's state after start-up
+	r.Emit("emuadopt", emuh.Snapshot(emu.VerifSnapshot()))
 	return s, nil
 }
 
@@ -202,7 +205,13 @@ func (s *session) render(refresh bool) {
 		s.r.Count("frame-render")
 	}
 	s.fc.Take()
-	s.r.Emit("emurender "+g, s.emuSnapshot())
+	op := "emurender "
+	if refresh {
+		op = "emurefresh "
+	}
+	s.r.Emit(op+g, s.emuSnapshot())
+	// full emulator state, compared with renderer model -> wire -> emulator model
+	s.r.Emit("emustate", emuh.Snapshot(s.emu.VerifSnapshot()))
 	s.r.Emit("emudraw", s.hostDraw())
 }
 
@@ -227,6 +236,7 @@ func (s *session) resize(w, h int) {
 	s.w, s.h = w, h
 	s.fc.Take()
 	s.r.Emit(fmt.Sprintf("size %d %d", w, h), "-")
+	s.r.Emit("emuadopt", emuh.Snapshot(s.emu.VerifSnapshot()))
 	s.r.Count("frame-resize")
 	if s.rng.Bool() {
 		s.hideCursor()
